@@ -85,6 +85,7 @@ struct Slot {
     int pdoReceiveRet = 0; int paraDefaultRet = 0;
 };
 
+void paint_stack();
 struct World {
     Slot s[2];
     int cur = 0;                    // slot the stack is currently executing for
@@ -103,7 +104,8 @@ struct World {
     CO_NODE *N(int slot = -1) { return s[slot < 0 ? cur : slot].node; }
 
     void ev(EvKind k, int64_t a = 0, int64_t b = 0, int64_t c = 0, const Frame *f = nullptr);
-    size_t mark() const { return evs.size(); }
+    size_t mark() const { paint_stack_hook(); return evs.size(); }   // called at the start of most operations: also normalises the stack
+    static void paint_stack_hook();
 
     // ---- build / teardown
     void build(int slot, const NodeCfg &cfg, std::vector<ObjSpec> objs, const std::vector<ParaSpec> &paras = {},
